@@ -22,6 +22,14 @@ where
 {
     let header = header::StreamHeader::parse(input)?;
 
+    // SHA-256 block checks cannot be verified yet: refuse the stream up front,
+    // also when it does not contain a single block.
+    if header.stream_flags.check_method == CheckMethod::Sha256 {
+        return Err(error::Error::XzError(
+            "Unsupported SHA-256 checksum (not yet implemented)".to_string(),
+        ));
+    }
+
     let mut records: Vec<Record> = vec![];
     let index_size = loop {
         let mut count_input = util::CountBufRead::new(input);
